@@ -12,6 +12,7 @@ import (
 	"strconv"
 	"strings"
 	"testing"
+	"time"
 
 	"github.com/asynkron/protoactor-go/actor"
 
@@ -79,12 +80,34 @@ func (r *recorder) PushMessageById(ns *service.NodeService, serverId string, ses
 }
 
 func (r *recorder) PushMessageByIds(ns *service.NodeService, serverId string, ids []uint32, route string, msg any) {
+	if rc := r.w.race; rc != nil && rc.front == serverId && rc.done == nil {
+		// another goroutine issues a membership operation on this very group now, before the
+		// id list is read. The channel holds the group lock across this call, so the operation
+		// cannot proceed until we return; give it a moment in case it can.
+		rc.done = make(chan struct{})
+		go func() {
+			defer close(rc.done)
+			rc.f()
+		}()
+		select {
+		case <-rc.done:
+		case <-time.After(raceGate):
+		}
+	}
 	cp := append([]uint32(nil), ids...)
 	r.w.pushes = append(r.w.pushes, pushTuple{serverId, cp, route, fmt.Sprint(msg)})
 	if serverId == r.w.local && ns == r.w.ns {
 		r.real.PushMessageByIds(ns, serverId, ids, route, msg)
 	}
 }
+
+type raceOp struct {
+	front string
+	f     func()
+	done  chan struct{}
+}
+
+const raceGate = time.Millisecond
 
 // owner is the actor behind the fake actor context handed to sys.pushmsg.
 type owner struct{ ns *service.NodeService }
@@ -127,6 +150,7 @@ type world struct {
 	pushes     []pushTuple
 	uids       map[*channel.Channel]int
 	slots      map[string]string
+	race       *raceOp
 	onAdd      func(id uint32)
 	onRemove   func(id uint32)
 }
@@ -343,6 +367,41 @@ func guarded(ws []string) string {
 				return "bad-op"
 			}
 			return w.bcast(w.svc.GetChannel(w.name(c)), route, msg)
+		case "bcastrace":
+			c, ok1 := hx.KV(ws, "ch")
+			route, ok2 := hx.KV(ws, "route")
+			msg, ok3 := hx.KV(ws, "msg")
+			f, ok4 := hx.KV(ws, "front")
+			act, ok5 := hx.KV(ws, "act")
+			id, ok6 := u32(ws, "id")
+			if !ok1 || !ok2 || !ok3 || !ok4 || !ok5 || !ok6 || (act != "leave" && act != "join") {
+				return "bad-op"
+			}
+			cw := w
+			rc := &raceOp{front: f, f: func() {
+				if act == "leave" {
+					cw.svc.LeaveFromChannel(cw.name(c), f, id)
+				} else {
+					cw.svc.AddToChannel(cw.name(c), f, id)
+				}
+			}}
+			w.race = rc
+			obs := w.bcast(w.svc.GetChannel(w.name(c)), route, msg)
+			w.race = nil
+			if rc.done == nil { // the front was not addressed: the operation simply comes afterwards
+				rc.f()
+			} else {
+				select {
+				case <-rc.done:
+				case <-time.After(5 * time.Second):
+					return "blocked"
+				}
+				stat("race.in-flight")
+			}
+			if act == "join" {
+				w.uid(w.svc.GetChannel(w.name(c)))
+			}
+			return obs
 		case "joinrange", "leaverange":
 			c, ok1 := hx.KV(ws, "ch")
 			f, ok2 := hx.KV(ws, "front")
@@ -667,7 +726,7 @@ func (g *gen) malformed() string {
 		return "spush ids=1 route=r data=0"
 	case 8:
 		return []string{"sdel id=-1", "joinrange ch=a front=f1 lo=1 hi=99999", "leaverange ch=a front=f1 lo=1 hi=3 dir=sideways",
-			"saddpush ids=self,me route=r data=", "sdelpush id=2 ids=1 route=r", "leaverange ch=a front=f1 lo=5 hi=2 dir=up"}[r.Intn(6)]
+			"saddpush ids=self,me route=r data=", "bcastrace ch=a route=r msg=m front=f1 act=swap id=1", "sdelpush id=2 ids=1 route=r", "leaverange ch=a front=f1 lo=5 hi=2 dir=up"}[r.Intn(7)]
 	}
 	return "freetemp slot=nope"
 }
@@ -848,6 +907,58 @@ func sessCase(h *hx.T, g *gen, run func(string)) {
 		}
 	}
 	h.Count("case.session-callbacks")
+}
+
+// raceCase: membership operations of another goroutine landing while a broadcast is in flight
+// (between the channel taking the id list of a front and the push layer reading it).
+func raceCase(h *hx.T, g *gen, run func(string)) {
+	r := h.R
+	g.slots, g.slotN = nil, 0
+	run("reset local=f1")
+	run("sadd")
+	run("sadd")
+	front := frontNames[r.Intn(2)]
+	n := 4 + r.Intn(9)
+	run(fmt.Sprintf("joinrange ch=a front=%s lo=2 hi=%d", front, 2+n))
+	run(fmt.Sprintf("join ch=a front=f3 id=%d", g.id()))
+	for i, k := 0, 4+r.Intn(8); i < k; i++ {
+		var ids []uint32
+		for _, t := range g.groups() {
+			if t.ch == "a" && t.front == front {
+				ids = t.ids
+			}
+		}
+		id, act := g.id(), "leave"
+		switch x := r.Intn(10); {
+		case x < 6 && len(ids) >= 3:
+			id = ids[1+r.Intn(len(ids)-2)]
+			h.Count("race.leave-middle")
+		case x < 7 && len(ids) > 0:
+			id = ids[0]
+			h.Count("race.leave-first")
+		case x < 8 && len(ids) > 0:
+			id = ids[len(ids)-1]
+			h.Count("race.leave-last")
+		case x < 9:
+			act = "join"
+			h.Count("race.join")
+		default:
+			h.Count("race.leave-random")
+		}
+		f := front
+		if r.Intn(8) == 0 {
+			f = "f3"
+		}
+		run(fmt.Sprintf("bcastrace ch=a route=rc msg=m%d front=%s act=%s id=%d", i, f, act, id))
+		if r.Intn(2) == 0 {
+			run(fmt.Sprintf("bcast ch=a route=rc msg=after%d", i))
+		}
+		if len(ids) < 4 {
+			run(fmt.Sprintf("joinrange ch=a front=%s lo=%d hi=%d", front, 20+10*i, 24+10*i))
+		}
+	}
+	run("bcast ch=a route=rc msg=end")
+	h.Count("case.concurrent-membership")
 }
 
 // bigCase: one group grows to 130..600 members (ids from a counter, optionally a run of
@@ -1037,6 +1148,9 @@ func TestRun(t *testing.T) {
 	}
 	for i := 0; i < nsess; i++ {
 		sessCase(h, g, run)
+	}
+	for i, k := 0, hx.EnvInt("VERIF_RACE", 40); i < k; i++ {
+		raceCase(h, g, run)
 	}
 	for i := 0; i < n; i++ {
 		runCase(h, g, run)
